@@ -90,6 +90,57 @@ def emptyRequest (ds : DistSem) (p : Prog) (key : KeyPath) (t : Trace) (args : V
     (changed : Bool := false) : Except Err Res :=
   if noChange then .ok ⟨t, 0, [], true⟩ else update ds p key t [] args changed
 
+/-! ### StaticRequest -/
+
+/-- One entry of a `StaticRequest`: the request applied at an address of a static function. -/
+structure SubReq where
+  mode : Mode        -- `.upd` for Update / EmptyRequest, `.regen` for Regenerate
+  c : CMap           -- the Update's constraint
+  sel : Sel          -- the Regenerate's selection
+
+namespace SubReq
+/-- `Update(c)`. -/
+def update (c : CMap) : SubReq := ⟨.upd, c, .none⟩
+/-- `Regenerate(sel)`. -/
+def regenerate (sel : Sel) : SubReq := ⟨.regen, [], sel⟩
+/-- `EmptyRequest()`: given to every address the request's dict does not mention.  Its `edit` is the
+    identity when the argument diffs are tagged NoChange and `Update(ChoiceMap.empty())` otherwise; the
+    model has no change tags and always takes the second reading (the two coincide on unchanged
+    arguments — checked against the implementation by the correspondence on every history). -/
+def empty : SubReq := ⟨.upd, [], .none⟩
+end SubReq
+
+/-- `StaticEditRequestHandler`: one pass over the body; the call at `addr` is edited by
+    `addressed.get(addr, EmptyRequest())` on its previous subtrace, with the handler's running key. -/
+def reqBody (ds : DistSem) (req : List String → SubReq) : Body → In → List (List String × Trace) → List Val → SState →
+    Except Err (SState × Val)
+  | .ret e, _, _, env, st => do
+    let v ← Expr.eval env e
+    pure (st, v)
+  | .bind addr p aes rest, i, olds, env, st => do
+    let a ← Expr.evalL env aes
+    if (lookupSub st.subs addr).isSome then .error .reuse
+    else do
+      let o ← bindOld .upd olds addr
+      let q := req addr
+      let r ← run ds q.mode p { i with c := q.c, sel := q.sel, old := o, key := i.key.child st.counter, args := .tup a }
+      reqBody ds req rest i olds (env ++ [r.tr.ret]) (bindOut st addr r)
+
+/-- The dict of a `StaticRequest` as a function of the address. -/
+def reqTable (reqs : List (List String × SubReq)) (a : List String) : SubReq :=
+  match reqs.find? (fun e => e.1 = a) with
+  | some e => e.2
+  | none => SubReq.empty
+
+/-- `edit(key, trace, StaticRequest(addressed), argdiffs)`: accepted by static functions only. -/
+def staticRequest (ds : DistSem) (p : Prog) (key : KeyPath) (t : Trace) (req : List String → SubReq) (args : Val)
+    (changed : Bool := false) : Except Err Res :=
+  match p with
+  | .static b =>
+    let i : In := { c := [], sel := .none, old := some t, key, args, changed }
+    staticRun .upd i (fun olds env => reqBody ds req b i olds env {})
+  | _ => .error .notSupported
+
 /-- `get_subtrace(addr)` / `get_inner_trace`: static traces look the address up; switch, mask and
     dimap traces delegate to their inner trace. -/
 def Trace.subtrace : Trace → List String → Option Trace
